@@ -94,7 +94,7 @@ pub struct ChildOut {
     pub file_lines: Option<Vec<String>>,
     /// per emitting thread: number of emissions that had returned when shutdown was called
     pub done_before_shutdown: Vec<usize>,
-    /// an emitting thread did not terminate within 3 s after shutdown returned
+    /// an emitting thread did not terminate within 6 s after shutdown returned and the streams were drained and dropped
     pub emitter_stuck: bool,
     /// diagnostics for `emitter_stuck`: per thread, the script index whose emission had not returned
     #[serde(default)]
